@@ -807,6 +807,27 @@ fn lean_opd_tokens(rng: &mut Rng, depth: u32, out: &mut Vec<String>) {
         out.push(rng.pick(&["-", "-", "-", "*", "s1", "s30"]).to_string());
         return;
     }
+    if rng.chance(1, 8) {
+        match rng.below(4) {
+            0 => out.push("a".into()),
+            1 => {
+                out.push("x".into());
+                out.push(crate::model::hex(rng.pick(&["title", "body", "t", "n"]).as_bytes()));
+            }
+            2 => {
+                out.push("el".into());
+                out.push(rng.below(5).to_string());
+                out.push(crate::model::hex(rng.pick(BND).as_bytes()));
+            }
+            _ => {
+                out.push("fel".into());
+                out.push(crate::model::hex(rng.pick(&["title", "body", "t", "n"]).as_bytes()));
+                out.push(rng.below(5).to_string());
+                out.push(crate::model::hex(rng.pick(BND).as_bytes()));
+            }
+        }
+        return;
+    }
     const SFX: &[&str] = &["*", "s0", "s1", "s2", "s10", "s007", "s4294967295", "-"];
     if rng.chance(1, 6) {
         if rng.chance(1, 2) {
